@@ -361,6 +361,14 @@ def run(tier: str) -> Run:
                 problems.append('quadrature does not return (points, weights) arrays of the rule length')
                 continue
             rotated = any(e.kind == 'rotation-from-rotvec' for e in o.events)
+            # the rule is left un-rotated only for an axis along +-z: |e_z x a| below 1e-10 (an axis 1e-6 rad off z is rotated)
+            guard = T.fn_cmp('>=', T.norm(T.cross(Vec.basis('z'), V('a'))), Rat.const(1e-10))
+            forks = [(cn, tk) for cn, tk, wh_ in o.conditions]  # wherever the guard lives (the method or a helper)
+            decided = [tk if getattr(cn, 'term', None) is not None and cn.term.eq(guard) else (not tk if getattr(cn, 'term', None) is not None and cn.term.eq(T.fn_not(guard)) else None)
+                       for cn, tk in forks]
+            if len(decided) != 1 or decided[0] is None or decided[0] != rotated:
+                problems.append(f'rotation is {"applied" if rotated else "skipped"} under ' + ', '.join(
+                    (T.show(cn.term) if getattr(cn, 'term', None) is not None else repr(cn)) + f' = {tk}' for cn, tk in forks) + f'; documented: rotate iff {T.show(guard)}')
             r_, h_ = S('radius', True), S('height', True)
             centre = V('base') + V('a') * h_ / 2
             for i in range(2):
